@@ -59,9 +59,11 @@ structure Guar (fs fs' : FS) (pid : Nat) : Prop where
   olLock : ∀ p, p ≠ pid → fs.ol.lock = some p → fs'.ol.lock = some p
   stGone : fs.st.linked = false → 17 ≤ fs.opc → fs'.st.linked = false
   olGone : fs.ol.linked = false → 17 ≤ fs.opc → fs'.ol.linked = false
+  /-- an owner-lock lock that is there afterwards was there before, or is the stepping process's own -/
+  olNew : ∀ p, fs'.ol.lock = some p → p = pid ∨ fs.ol.lock = some p
 
 theorem Guar.refl (fs : FS) (pid : Nat) : Guar fs fs pid :=
-  ⟨Nat.le_refl _, id, fun _ _ h => h, fun h _ => h, fun h _ => h⟩
+  ⟨Nat.le_refl _, id, fun _ _ h => h, fun h _ => h, fun h _ => h, fun _ h => Or.inr h⟩
 
 /-- the other processes' facts survive a step that keeps its guarantee -/
 theorem L.stable {fs fs' : FS} {u : Th} {pid : Nat} (hu : L fs u) (hg : Guar fs fs' pid) (hne : u.pid ≠ pid)
